@@ -114,7 +114,16 @@ impl ProcessState {
             let tx = if !must_create {
                 db = connect(&e, &dbfile)
                     .map_err(|e| RedoError::new(format!("could not connect: {}", e)))?;
-                let tx = db.transaction().map_err(RedoError::opaque_error)?;
+                // If a run id has to be allocated below, this transaction writes
+                // after reading: take the write lock up front (waiting under the
+                // busy timeout) rather than fail with SQLITE_BUSY on the upgrade.
+                let tx = db
+                    .transaction_with_behavior(if e.runid.is_none() {
+                        TransactionBehavior::Immediate
+                    } else {
+                        TransactionBehavior::Deferred
+                    })
+                    .map_err(RedoError::opaque_error)?;
                 let ver: Option<i32> = tx
                     .query_row("select version from Schema", [], |row| row.get(0))
                     .optional()
